@@ -1,0 +1,65 @@
+//go:build verif
+
+// Verification hooks (build tag "verif"). See /verif/DESIGN.md section 6.
+// With the tag off none of this exists and vhook() is an empty function.
+
+package statedb
+
+import (
+	"sync/atomic"
+	"time"
+
+	"github.com/cilium/statedb/internal"
+)
+
+var verifHook atomic.Pointer[func(point string)]
+
+// VerifSetHook installs (or with nil removes) the function called at every
+// protocol step of WriteTxn/Commit/Abort/registerTable/graveyardWorker.
+func VerifSetHook(f func(point string)) {
+	if f == nil {
+		verifHook.Store(nil)
+		internal.VerifHook.Store(nil)
+		return
+	}
+	verifHook.Store(&f)
+	internal.VerifHook.Store(&f)
+}
+
+func vhook(point string) {
+	if f := verifHook.Load(); f != nil {
+		(*f)(point)
+	}
+}
+
+// VerifEncodeNonUniqueKey exposes the composite key of non-unique indexes.
+func VerifEncodeNonUniqueKey(primary, secondary []byte) []byte {
+	return encodeNonUniqueKey(primary, secondary)
+}
+
+// VerifSplitNonUniqueKey separates a composite key into its encoded
+// secondary and encoded primary parts.
+func VerifSplitNonUniqueKey(key []byte) (secondary, primary []byte) {
+	k := nonUniqueKey(key)
+	return k.encodedSecondary(), k.encodedPrimary()
+}
+
+// VerifEncodeNonUniqueBytes exposes the escaping applied to query keys.
+func VerifEncodeNonUniqueBytes(src []byte) []byte {
+	return encodeNonUniqueBytes(src)
+}
+
+// VerifGraveyardLen returns the number of objects in the table's graveyard.
+func VerifGraveyardLen(txn ReadTxn, table TableMeta) int {
+	return table.numDeletedObjects(txn)
+}
+
+// VerifDeleteTrackerCount returns the number of registered delete trackers.
+func VerifDeleteTrackerCount(txn ReadTxn, table TableMeta) int {
+	return txn.getTableEntry(table).deleteTrackers.Len()
+}
+
+// VerifSetGCRateLimitInterval sets the graveyard collection interval (before Start).
+func VerifSetGCRateLimitInterval(db *DB, d time.Duration) {
+	db.setGCRateLimitInterval(d)
+}
